@@ -84,7 +84,7 @@ pub fn hash_event(depth: u8, lon: f64, lat: f64, class: &str) -> Value {
   let n = 1u32 << depth;
   let f = face_of(n, lon, lat);
   let r = guarded(|| nested::hash(depth, lon, lat));
-  json!({"ev": "hash", "d": depth, "f": f.json(), "p": if r.is_none() { 1 } else { 0 },
+  json!({"ev": "hash", "d": depth, "f": f.json(), "fk": f.kind(), "p": if r.is_none() { 1 } else { 0 },
          "r": r.map_or(json!([]), |h| cell_json(depth, h)), "cls": class, "in": pos_str(lon, lat)})
 }
 
@@ -198,7 +198,7 @@ pub fn record_c04(rng: &mut Rng, count: u64, out: &mut Out) {
       let layer = nested::get_or_create(depth);
       let r1 = guarded(|| layer.neighbours(h, false)).is_none();
       let r2 = guarded(|| layer.neighbour(h, MainWind::E)).is_none();
-      out.emit(json!({"ev": "neigh_bad", "d": depth, "p": if r1 && r2 { 1 } else { 0 }, "in": format!("{}", h)}));
+      out.emit(json!({"ev": "neigh_bad", "d": depth, "pn": r1 as u8, "p1": r2 as u8, "in": format!("{}", h)}));
       continue;
     }
     let n = 1u32 << depth;
